@@ -174,6 +174,9 @@ class Highlighter(object):
 
         return lines
 
+    def plain_line(self, line):
+        return self._chunk(self.TOKEN_DEFAULT, line)
+
     def _chunk(self, token_type, text):
         # Source code is text, not markup
         style = self._theme[token_type]
@@ -425,12 +428,14 @@ class ExceptionTrace(object):
                                 indent=1,
                             )
                     else:
+                        highlighter = Highlighter(supports_utf8=io.supports_utf8())
                         try:
-                            code_line = Highlighter(
-                                supports_utf8=io.supports_utf8()
-                            ).highlighted_lines(frame.line.strip())[0]
+                            code_line = highlighter.highlighted_lines(
+                                frame.line.strip()
+                            )[0]
                         except tokenize.TokenError:
-                            code_line = frame.line.strip()
+                            # Not a complete statement: the line is shown as it is
+                            code_line = highlighter.plain_line(frame.line.strip())
 
                         self._render_line(
                             io, "{:>{}}  {}".format(" ", max_frame_length, code_line),
